@@ -26,6 +26,10 @@ inductive Call : Type → Type where
   | insRemove (id : Nat) : Call (Except RErr Unit)
   | insClear (before : GoTime) : Call (Except RErr Nat)
   | enqueue (p : Probe) (after before : GoTime) : Call (Except RErr Unit)
+  | popMany (n : Int) : Call (Except RErr (List Probe × Nat))
+  /-- `Update` whose conflict callback reads the clock itself (`HandleSuccess` calls `clock.Now()`):
+  the callback is given the clock value at the call's commit -/
+  | updateServerT (svr : Server) (res : Int → Resolver) : Call (Except RErr Server)
 
 /-- atomic effect of a call on the abstract state at clock value `now` (healthy storage) -/
 def Call.exec : {β : Type} → Call β → AbsState → Int → AbsState × β
@@ -40,6 +44,8 @@ def Call.exec : {β : Type} → Call β → AbsState → Int → AbsState × β
   | _, .insRemove id, s, _ => (s.insRemove id, .ok ())
   | _, .insClear before, s, _ => let (s', n) := s.insClear before; (s', .ok n)
   | _, .enqueue p after before, s, t => (s.enqueue t p after before, .ok ())
+  | _, .popMany n, s, t => let (s', ps, e) := s.popMany t n; (s', .ok (ps, e))
+  | _, .updateServerT svr res, s, t => s.update t svr (res t)
 
 /-- the reply a call gets when the storage fails (`none` for `now`, which cannot fail) -/
 def Call.faultReply : {β : Type} → Call β → Option β
@@ -54,6 +60,16 @@ def Call.faultReply : {β : Type} → Call β → Option β
   | _, .insRemove _ => some (.error .storage)
   | _, .insClear _ => some (.error .storage)
   | _, .enqueue _ _ _ => some (.error .storage)
+  | _, .popMany _ => some (.error .storage)
+  | _, .updateServerT _ _ => some (.error .storage)
+
+/-- calls that issue no storage command at all (not scheduling points): clock reads, an `enqueue` that
+is dropped because its ready time is not before its expiry, `PopMany` of a non-positive count -/
+def Call.silent : {β : Type} → Call β → Bool
+  | _, .now => true
+  | _, .enqueue _ (some a) (some b) => decide (a ≥ b)
+  | _, .popMany n => decide (n ≤ 0)
+  | _, _ => false
 
 inductive Prog (α : Type) : Type 1 where
   | ret (a : α) : Prog α
@@ -95,6 +111,38 @@ def stepFault {α : Type} (effect : Bool) : Prog α → AbsState → Int → Abs
     match c.faultReply with
     | none => let (s', b) := c.exec s now; (s', k b)
     | some e => if effect then ((c.exec s now).1, k e) else (s, k e)
+
+/-- name of a call as the harness marks it -/
+def _root_.Swat4.Call.name : {β : Type} → Call β → String
+  | _, .now => "now"
+  | _, .getServer _ => "get"
+  | _, .addServer _ _ => "add"
+  | _, .updateServer _ _ => "update"
+  | _, .removeServer _ _ => "remove"
+  | _, .filterServers _ => "filter"
+  | _, .insAdd _ => "insadd"
+  | _, .insGet _ => "insget"
+  | _, .insRemove _ => "insrm"
+  | _, .insClear _ => "insclear"
+  | _, .enqueue _ _ _ => "enqueue"
+  | _, .popMany _ => "popmany"
+  | _, .updateServerT _ _ => "update"
+
+/-- perform the leading silent calls (they are not scheduling points); fuel bounds the unfolding.
+Returns the names of the silent repository calls performed (clock reads excluded). -/
+def skipSilent {α : Type} : Nat → Prog α → AbsState → Int → List String → AbsState × Prog α × List String
+  | 0, p, s, _, names => (s, p, names)
+  | _ + 1, .ret a, s, _, names => (s, .ret a, names)
+  | fuel + 1, .call c k, s, now, names =>
+    if c.silent then
+      let (s', b) := c.exec s now
+      skipSilent fuel (k b) s' now (if c.name == "now" then names else names ++ [c.name])
+    else (s, .call c k, names)
+
+/-- name of the head call, if any -/
+def headName {α : Type} : Prog α → Option String
+  | .ret _ => none
+  | .call c _ => some c.name
 
 /-- number of calls along the path taken in a sequential run (for termination/bounds) -/
 def runSteps {α : Type} : Prog α → AbsState → Int → Nat
